@@ -92,6 +92,100 @@ def hand_const_callee_write(x: fp.Real, y: fp.Real, xs: list[fp.Real], k: fp.Rea
             row[0] = k
             a = a + row[0]
     return a + x''',
+    'hand_copy_loop': '''@fp.fpy
+def hand_copy_loop(x: fp.Real, y: fp.Real, xs: list[fp.Real], k: fp.Real):
+    old = x
+    i = 0
+    while i < k:
+        x = x * 2
+        i = i + 1
+    keep = y
+    for e in xs:
+        y = y + e
+    return (x - old, y - keep)''',
+    'hand_delay_line': '''@fp.fpy
+def hand_delay_line(x: fp.Real, y: fp.Real, xs: list[fp.Real], k: fp.Real):
+    with fp.MPFloatContext(6):
+        d1 = 0
+        d2 = 0
+        d3 = 0
+        acc = 0
+        for e in xs:
+            acc = acc + d3
+            d3 = d2
+            d2 = d1
+            d1 = e
+        c1 = 0
+        c2 = 0
+        c3 = 0
+        c4 = 0
+        c5 = 0
+        out = 0
+        for i in range(8):
+            out = out + c5
+            c5 = c4
+            c4 = c3
+            c3 = c2
+            c2 = c1
+            c1 = x + i
+    return (acc, d3, out)''',
+    'hand_zero_sign_merge': '''@fp.fpy
+def hand_zero_sign_merge(x: fp.Real, y: fp.Real, xs: list[fp.Real], k: fp.Real):
+    with fp.MPFloatContext(6):
+        if x > 1:
+            z = 0.0
+        else:
+            z = -0.0
+        a = 1 / z
+        w = 0.0
+        for i in range(k):
+            w = -w
+        b = 1 / w
+        us = [0.0, 1.0]
+        if y > 1:
+            us = [-0.0, 1.0]
+        c = 1 / us[0]
+    return (a, b, c)''',
+    'hand_impure_callee': '''@fp.fpy
+def hand_ic_touch(zs: list[fp.Real]) -> fp.Real:
+    ys = zs
+    ys[0] = 7
+    return 0
+
+@fp.fpy
+def hand_ic_zero(zs: list[fp.Real]) -> fp.Real:
+    for i in range(len(zs)):
+        zs[i] = 0
+    return 0
+
+@fp.fpy
+def hand_impure_callee(x: fp.Real, y: fp.Real, xs: list[fp.Real], k: fp.Real):
+    us = [x, x]
+    t = hand_ic_touch(us)
+    vs = [y, y, 1]
+    u = hand_ic_zero(vs)
+    return (us[0], vs[1])''',
+    'hand_stale_cond': '''@fp.fpy
+def hand_stale_cond(x: fp.Real, y: fp.Real, xs: list[fp.Real], k: fp.Real):
+    with fp.MPFloatContext(6):
+        a = 0
+        i = 0
+        cnt = 0
+        while i < k:
+            j = 0
+            while a < 1 and j < 3:
+                a = a * 1
+                j = j + 1
+                cnt = cnt + 1
+            a = 1
+            i = i + 1
+    return cnt''',
+    'hand_const_return': '''@fp.fpy
+def hand_const_return(x: fp.Real, y: fp.Real, xs: list[fp.Real], k: fp.Real):
+    with fp.MPFloatContext(6):
+        if 1 < 2:
+            return x
+    return x + 1''',
     'hand_fold_ctx': '''@fp.fpy
 def hand_fold_ctx(x: fp.Real, y: fp.Real, xs: list[fp.Real], k: fp.Real):
     a = 1.25 * 3
